@@ -17,5 +17,5 @@ PROPS = {"C15": dict(
     technique="model-based stateful PBT with fault/crash injection and an independent storage auditor at every mirror lock write",
     budget={"quick": 600, "thorough": 2400},
     units=[
-        rapid("witness", "internal/witness", "^TestVerifC15Mirror$", 250, 500, qs=2, env={"GOGC": "400"}),
+        rapid("witness", "internal/witness", "^TestVerifC15Mirror$", 400, 500, qs=3, env={"GOGC": "400"}),
     ])}
